@@ -304,7 +304,8 @@ fn inline_ok(e: &Entry) -> bool {
         let k = e.key.strip_prefix('U').unwrap_or(&e.key);
         !k.is_empty() && k.chars().all(|c| c.is_ascii_digit())
     };
-    !bad(&e.key) && !bad(&e.reading) && e.pos.iter().all(|p| !bad(p)) && !numeric && e.key == e.headword && !e.escape
+    // (the target's headword may differ from its key: own entries are found by key, system entries by headword)
+    !bad(&e.key) && !bad(&e.headword) && !bad(&e.reading) && e.pos.iter().all(|p| !bad(p)) && !numeric && !e.escape
 }
 
 pub fn resolve_inline_model(lex: &Lexicon, system: Option<&Lexicon>, r: &Ref) -> Option<(u8, usize)> {
